@@ -96,6 +96,44 @@ func c07(r *Report) {
 	r.MustReach(MustReach{ID: "C07.progress.set-decode-failure-falls-back", Fn: hts, Cond: CallCheck(Fn("std:errors", "", "Is"), -1, IsTrue), Target: AnyOf(p.FnOrImpl(v2Pkg, "messageSender", "sendTransactionRangeQuery"), p.FnOrImpl(v2Pkg, "messageSender", "sendState"))})
 	// the fallback State request asks for a strictly lower clock than the page just tried (page start - 1): otherwise it would retry the same page forever
 	r.ArgIs("C07.progress.fallback-asks-lower-page", hts, p.FnOrImpl(v2Pkg, "messageSender", "sendState"), 2, SubConstV(CallV(Fn(v2Pkg, "", "pageClockStart"), -1), 1), 1)
+	// a peer queue whose ticker was stopped is always forgotten: PeerConnected leaves an existing entry alone (no new
+	// ticker), so a kept queue would never gossip again after the reconnect
+	unreg := Fn(v2Pkg+"/gossip", "peerQueue", "unregister")
+	r.MustReach(MustReach{ID: "C07.progress.stopped-queue-is-forgotten", Fn: p.Func(v2Pkg+"/gossip", "manager", "PeerDisconnected"), After: &unreg,
+		Target: Callee{Desc: "delete(m.peers, key)", M: func(cc *ssa.CallCommon) bool { b, ok := cc.Value.(*ssa.Builtin); return ok && b.Name() == "delete" }}})
+	// what a gossip message advertises is the state of the DAG when it is SENT (fix: the XOR registered with the queue is read and
+	// registered in two steps by concurrent callers and can be stale; a peer whose XOR equals the stale value believes it is in sync)
+	sg := p.Func(v2Pkg, "protocol", "sendGossip")
+	cur := CallV(p.FnOrImpl("network/dag", "State", "XOR"), -1)
+	r.ArgIs("C07.progress.gossip-sends-the-current-xor", sg, Fn(v2Pkg, "protocol", "sendGossipMsg"), 2, VPat{Desc: "the XOR read from the state in sendGossip", M: func(v ssa.Value) bool {
+		ex, ok := v.(*ssa.Extract)
+		return ok && ex.Index == 0 && cur.M(ex.Tuple) || cur.M(v)
+	}}, 1)
+	r.ArgIs("C07.progress.gossip-sends-the-current-clock", sg, Fn(v2Pkg, "protocol", "sendGossipMsg"), 3, VPat{Desc: "the clock read from the state in sendGossip", M: func(v ssa.Value) bool {
+		ex, ok := v.(*ssa.Extract)
+		return ok && ex.Index == 1 && cur.M(ex.Tuple)
+	}}, 1)
+	// a transaction that cannot be sent in one message is never created (it could never be replicated, nor anything after it)
+	ct := p.Func("network", "Network", "CreateTransaction")
+	r.Gate(Gate{ID: "C07.progress.created-transaction-fits-a-message", Fn: ct, Effect: CallEffect(p.FnOrImpl("network/dag", "State", "Add")),
+		Check: CmpCheck("len(data)+len(payload)+overhead > MaxMessageSizeInBytes is false", token.LSS, VPat{Desc: "grpc.MaxMessageSizeInBytes", M: func(v ssa.Value) bool {
+			u, ok := v.(*ssa.UnOp)
+			if !ok || u.Op != token.MUL {
+				return false
+			}
+			g, isG := u.X.(*ssa.Global)
+			return isG && g.Name() == "MaxMessageSizeInBytes"
+		}}, AnyV(), false)})
+	// IBLT decode peels a bucket only if it is pure: count is +1 or -1 AND the key's hash equals the bucket's hash sum (a
+	// bucket holding 2 own refs and 1 peer ref also has count +1: peeling it reports a ref nobody has and corrupts the rest)
+	const treePkg = "network/dag/tree"
+	dec := p.Func(treePkg, "Iblt", "Decode")
+	peel := CallEffect(AnyOf(Fn(treePkg, "Iblt", "Delete"), Fn(treePkg, "Iblt", "Insert")))
+	r.Gate(Gate{ID: "C07.iblt.peel-only-if-hash-matches", Fn: dec, Effect: peel,
+		Check: CmpCheck("hashKey(bucket.keySum) == bucket.hashSum", token.EQL, CallV(Fn(treePkg, "Iblt", "hashKey"), -1), FieldV("bucket", "hashSum"), true)})
+	r.Gate(Gate{ID: "C07.iblt.peel-only-if-count-is-one", Fn: dec, Effect: peel,
+		Check: CmpCheck("bucket.count == 1", token.EQL, FieldV("bucket", "count"), IntV(1), true),
+		Alt:   []Check{CmpCheck("bucket.count == -1", token.EQL, FieldV("bucket", "count"), IntV(-1), true)}})
 	c07ErrorsIsArg(r, htl, "ErrPreviousTransactionMissing")
 	c07ErrorsIsArg(r, hts, "ErrDecodeNotPossible")
 
